@@ -339,15 +339,17 @@ impl Area for Scm {
     fn corpus(&self) -> Vec<Vec<String>> {
         let mut out = vec![];
         // F18 witness: 200 TCP listeners with 19-character addresses (Props.lean: C10_capacity_counterexample)
-        // boundaries: 21 bytes per entry -> 195 listeners overflow 4096, 194 fit; full-length v6
-        // (49 bytes per entry) -> 84 overflow, 83 fit
-        for (n, kind) in [(200usize, 1), (195, 1), (194, 1), (100, 1), (200, 0), (84, 2), (83, 2)] {
+        // witnesses of finding F18 (repaired by fd7301c): with the former 4096-byte buffer, 21 bytes per
+        // entry -> 195 listeners overflowed, 194 fitted; full-length v6 (49 bytes per entry) -> 84
+        // overflowed, 83 fitted. Kind 3: MAX_FDS_OUT listeners on the longest address text there is (58 bytes).
+        for (n, kind) in [(200usize, 1), (195, 1), (194, 1), (100, 1), (200, 0), (84, 2), (83, 2), (200, 2), (200, 3)] {
             let l: Vec<Entry> = (0..n)
                 .map(|i| {
                     let a = match kind {
                         1 => format!("127.100.{}.{}:{}", 10 + i / 50, 10 + i % 50, 10000 + i),
                         0 => format!("127.0.0.{}:{}", 1 + i % 9, 1024 + i),
-                        _ => format!("[2001:1db8:1111:2222:3333:4444:5555:{:x}]:{}", 0x1000 + i, 10000 + i),
+                        2 => format!("[2001:1db8:1111:2222:3333:4444:5555:{:x}]:{}", 0x1000 + i, 10000 + i),
+                        _ => format!("[2001:1db8:1111:2222:3333:4444:5555:{:x}%4294967295]:65535", 0x1000 + i),
                     };
                     (a, i)
                 })
@@ -533,7 +535,9 @@ impl Area for Scm {
                                         Some(id) => {
                                             let s = &c.socks[&id];
                                             // ---- oracle: the descriptor is the listener of that address
-                                            if s.bound && getsockname(*fd) != Some(*addr) {
+                                            // (a scope id on a global address is not kept by the kernel)
+                                            let same = getsockname(*fd).map(|g| g.ip() == addr.ip() && g.port() == addr.port()).unwrap_or(false);
+                                            if s.bound && !same {
                                                 r.oracle.push(("listener-fd-mispaired".into(), format!("{} {addr} came with a descriptor bound to {:?}", PROTOS[k], getsockname(*fd))));
                                             }
                                             let want_ty = if s.udp { libc::SOCK_DGRAM } else { libc::SOCK_STREAM };
